@@ -3,6 +3,7 @@ package c14
 import (
 	"math/rand/v2"
 	"sort"
+	"strings"
 )
 
 // variant is one generator: family + variant name, built per use with fresh
@@ -11,7 +12,7 @@ type variant struct {
 	fam     string
 	name    string
 	core    bool // scheduled first, in every run (shapes of the defects fixed so far and of the seeded changes)
-	weight  int  // relative frequency in the random phase (default 1)
+	weight  int  // relative frequency inside its group (default 1)
 	applies func(p plan, r quickness) bool
 	build   func(fx *fixture, rng *rand.Rand) []*op // usually one op; setup ops may precede it
 }
@@ -22,20 +23,34 @@ var registry []variant
 
 func register(v ...variant) { registry = append(registry, v...) }
 
+// groupWeights: share of the random phase per generator group (first component of the family).
+var groupWeights = map[string]int{
+	"resname": 8, "offsets": 4, "digest": 10, "splice": 2, "payload": 5, "rawproto": 6, "fetch": 5, "stored": 10,
+	"wseq": 10, "abort": 10, "http": 13, "httpraw": 6, "grpcraw": 2, "disk": 9, "misc": 1,
+}
+
+func groupOf(fam string) string {
+	if i := strings.IndexByte(fam, '.'); i > 0 {
+		return fam[:i]
+	}
+	return fam
+}
+
 // scheduler produces the deterministic request list of one fixture: first every
-// core variant, then every other applicable variant once (in seeded order),
-// then weighted random picks.
+// core variant; in the thorough tier then every other applicable variant once
+// (seeded order); then random picks: a group by weight, a variant inside it by weight.
 type scheduler struct {
 	fx      *fixture
 	queue   []*op
-	first   []variant
 	pending []variant
-	all     []variant
-	totalW  int
+	groups  []string
+	byGroup map[string][]variant
+	gw      map[string]int
+	totalGW int
 }
 
 func newScheduler(fx *fixture) *scheduler {
-	s := &scheduler{fx: fx}
+	s := &scheduler{fx: fx, byGroup: map[string][]variant{}, gw: map[string]int{}}
 	q := quickness{quick: fx.r.Quick}
 	var core, rest []variant
 	for _, v := range registry {
@@ -45,40 +60,72 @@ func newScheduler(fx *fixture) *scheduler {
 		if v.weight == 0 {
 			v.weight = 1
 		}
-		s.all = append(s.all, v)
-		s.totalW += v.weight
+		g := groupOf(v.fam)
+		if _, ok := s.byGroup[g]; !ok {
+			s.groups = append(s.groups, g)
+			w := groupWeights[g]
+			if w == 0 {
+				w = 1
+			}
+			s.gw[g] = w
+			s.totalGW += w
+		}
+		s.byGroup[g] = append(s.byGroup[g], v)
 		if v.core {
 			core = append(core, v)
 		} else {
 			rest = append(rest, v)
 		}
 	}
-	sort.SliceStable(core, func(i, j int) bool { return core[i].fam+core[i].name < core[j].fam+core[j].name })
-	sort.SliceStable(rest, func(i, j int) bool { return rest[i].fam+rest[i].name < rest[j].fam+rest[j].name })
+	sort.Strings(s.groups)
+	byName := func(vs []variant) {
+		sort.SliceStable(vs, func(i, j int) bool { return vs[i].fam+"."+vs[i].name < vs[j].fam+"."+vs[j].name })
+	}
+	byName(core)
+	byName(rest)
 	fx.rng.Shuffle(len(core), func(i, j int) { core[i], core[j] = core[j], core[i] })
-	fx.rng.Shuffle(len(rest), func(i, j int) { rest[i], rest[j] = rest[j], rest[i] })
-	s.pending = append(core, rest...)
+	s.pending = core
+	if !fx.r.Quick {
+		fx.rng.Shuffle(len(rest), func(i, j int) { rest[i], rest[j] = rest[j], rest[i] })
+		s.pending = append(s.pending, rest...)
+	}
 	return s
+}
+
+func (s *scheduler) pick() variant {
+	if len(s.pending) > 0 {
+		v := s.pending[0]
+		s.pending = s.pending[1:]
+		return v
+	}
+	w := s.fx.rng.IntN(s.totalGW)
+	g := s.groups[0]
+	for _, c := range s.groups {
+		if w < s.gw[c] {
+			g = c
+			break
+		}
+		w -= s.gw[c]
+	}
+	vs := s.byGroup[g]
+	tw := 0
+	for _, v := range vs {
+		tw += v.weight
+	}
+	x := s.fx.rng.IntN(tw)
+	for _, v := range vs {
+		if x < v.weight {
+			return v
+		}
+		x -= v.weight
+	}
+	return vs[0]
 }
 
 func (s *scheduler) next() *op {
 	for len(s.queue) == 0 {
-		var v variant
-		if len(s.pending) > 0 {
-			v = s.pending[0]
-			s.pending = s.pending[1:]
-		} else {
-			w := s.fx.rng.IntN(s.totalW)
-			for _, c := range s.all {
-				if w < c.weight {
-					v = c
-					break
-				}
-				w -= c.weight
-			}
-		}
-		ops := v.build(s.fx, s.fx.rng)
-		for _, o := range ops {
+		v := s.pick()
+		for _, o := range v.build(s.fx, s.fx.rng) {
 			if o == nil {
 				continue
 			}
